@@ -178,7 +178,9 @@ func summarizeLib(o *real.Outcome) string {
 	}
 	sort.Strings(keys)
 	for _, k := range keys {
-		js, _ := json.Marshal(o.TxMeta[k])
+		// every value serialises as the JSON string of its text (C13); rendered here from the value,
+		// not through the library's own encoder
+		js, _ := json.Marshal(o.TxMeta[k].String())
 		fmt.Fprintf(&b, "%s=%s,", k, string(js))
 	}
 	b.WriteString("| acct:")
@@ -210,7 +212,7 @@ func typedCfg(i int) gen.LCfg {
 	case 2:
 		b.POriginVar, b.PVarAcct = 40, 50
 	case 3:
-		b.PMetaStmt, b.PSave = 45, 20
+		b.PMetaStmt, b.PSave, b.PBig = 45, 20, 60
 	}
 	return b
 }
